@@ -47,7 +47,7 @@ using namespace photon::rpc;
     X(map_slice_outside_base_flagged) X(flagged_oob_confirmed_by_sanitizer) X(flagged_map_library_call_skipped) \
     X(child_deaths) X(checked_altered_accepted_provable) X(checked_altered_accepted_not_provable) X(map_find_calls) X(map_entries_iterated) X(fields_walked) X(bytes_touched) \
     X(generator_iovfull_skipped) X(failpath_null_arith_executed) X(fixed_buffer_wire_length_mismatch_accepted) \
-    X(stack_serializer_compared) X(nested_aligned_cases) X(timeout_not_reproduced) X(death_not_reproduced_alone) X(known_crash_repeats)
+    X(stack_serializer_compared) X(nested_aligned_cases) X(repeat_of_recorded_crash_not_executed) X(timeout_not_reproduced) X(death_not_reproduced_alone) X(known_crash_repeats)
 enum Ctr {
 #define X(n) CT_##n,
     CTRS(X)
@@ -60,13 +60,14 @@ static const char* ctr_name[] = {
 #undef X
 };
 
-constexpr int BATCH = 256;
+constexpr int BATCH = 512;
 struct Shm {
     volatile uint64_t cur, cur_hash, done;
     volatile int cur_nontrivial;
     char stage[40], kind[64], edit[24], type[32], mode[16];
     volatile int explicit_flagged;
     uint32_t flagged_lib_calls;
+    uint32_t array_msg_overrun_deaths;      // maintained by the parent
     uint64_t ctr[CT_N];
     uint64_t events;
     uint32_t n_notes;
@@ -160,11 +161,15 @@ template <class D> struct WalkBase {
 struct ModelWalker : WalkBase<ModelWalker> {
     const uint8_t* base;
     size_t limit, cur = 0;
-    bool fail = false;
+    bool fail = false;          // first field whose wire length exceeds what remains: a correct receiver returns null
     int fail_kind = -1;
     size_t fail_len = 0, fail_remaining = 0;
     int in_elem = 0;
     bool failpath_null_arith = false;
+    // The library goes on after the first failed extraction (it only remembers `failed`). The walk follows it without
+    // recording anything, only to know whether it will then run over the elements of an array<Message> whose extraction
+    // failed (known finding: null-based element access inside deserialize()).
+    bool walks_null_elements = false;
     std::vector<FieldRec> f;
     std::vector<PlainRec> plain;
     ModelWalker(const uint8_t* b, size_t lim) : base(b), limit(lim) {}
@@ -179,12 +184,21 @@ struct ModelWalker : WalkBase<ModelWalker> {
             fail_len = r.len;
             fail_remaining = limit - cur;
             if (r.kind == K_FIXED || r.kind == K_ARRAY || r.kind == K_ARRAY_MSG || r.kind == K_MAP_INDEX) failpath_null_arith = true;
+            if (r.kind == K_IOVEC || r.kind == K_ALIGNED_IOVEC) cur = limit;       // a failed extract_front(bytes, view) has consumed what there was
             return;
         }
         cur += r.len;
     }
+    // after the first failure: true if these `len` bytes can still be taken
+    bool after_fail_take(size_t len, bool is_iov) {
+        if (len == 0) return true;
+        if (len > limit - cur) { if (is_iov) cur = limit; return false; }
+        cur += len;
+        return true;
+    }
     void on_buf(int kind, buffer& x, size_t elem) {
-        if (fail) return;
+        if (walks_null_elements) return;
+        if (fail) { after_fail_take(x._len, false); return; }
         FieldRec r;
         r.kind = kind; r.depth = depth; r.in_elem = in_elem; r.elem = elem;
         r.len = x._len;
@@ -194,7 +208,8 @@ struct ModelWalker : WalkBase<ModelWalker> {
         f.push_back(r);
     }
     void on_iov(int kind, iovec_array& x) {
-        if (fail) return;
+        if (walks_null_elements) return;
+        if (fail) { after_fail_take(x.summed_size, true); return; }
         FieldRec r;
         r.kind = kind; r.depth = depth; r.in_elem = in_elem; r.elem = 1;
         r.len = x.summed_size;
@@ -203,13 +218,25 @@ struct ModelWalker : WalkBase<ModelWalker> {
         take(r);
         f.push_back(r);
     }
+    template <class E> static bool elem_has_fields() {
+        alignas(E) unsigned char tmp[sizeof(E)] = {};
+        ModelWalker probe(tmp, 0);
+        ((E*)tmp)->process_fields(probe);
+        return !probe.f.empty();
+    }
     template <class E> void on_array_msg(array<E>& x) {
-        if (fail) return;
-        on_buf(K_ARRAY_MSG, x, sizeof(E));
-        if (fail) return;
-        size_t cnt = f.back().len / sizeof(E), d0 = f.back().data_off;
+        if (walks_null_elements) return;
+        size_t len = x._len, d0 = cur;
+        bool taken;
+        if (fail) taken = after_fail_take(len, false);
+        else { on_buf(K_ARRAY_MSG, x, sizeof(E)); taken = !fail; d0 = f.back().data_off; }
+        if (!taken) {
+            if (len >= sizeof(E) && elem_has_fields<E>()) walks_null_elements = true;
+            return;
+        }
+        size_t cnt = len / sizeof(E);
         in_elem++;
-        for (size_t i = 0; i < cnt && !fail; ++i) {
+        for (size_t i = 0; i < cnt && !walks_null_elements; ++i) {
             E* e = (E*)(base + d0 + i * sizeof(E));
             depth++;
             e->process_fields(*this);
@@ -290,6 +317,8 @@ struct LiveWalker : WalkBase<LiveWalker> {
 // them is re-run alone with reports on
 static bool g_fast_death = false;
 extern "C" void __asan_on_error() { if (g_fast_death) _exit(99); }
+// use-after-free is not what this harness looks for; a small quarantine keeps the working set of each child small
+extern "C" const char* __asan_default_options() { return "quarantine_size_mb=1:thread_local_quarantine_size_kb=64"; }
 
 static uint64_t g_sink;
 static void touch(const void* p, size_t n) {
@@ -602,6 +631,7 @@ struct RecAlloc {
         auto me = (RecAlloc*)self;
         *out = nullptr;
         if (sz.max < 0 || sz.min < 0 || sz.max < sz.min) return -1;
+        if (sz.max > (64 << 20)) return -1;      // no input here is larger than a few hundred KiB: refusing is a legal answer of an allocator
         void* p = malloc((size_t)sz.max);       // exact size: ASan sees the end of every copy
         if (!p) return -1;
         memset(p, 0xA5, (size_t)sz.max);        // never-written bytes of a "copy" are recognisable (and not input bytes)
@@ -1123,11 +1153,19 @@ static void run_input(uint64_t idx, uint64_t case_seed, int variant, int tindex)
     }
 
     // ---- deserialise
+    if (!body_short && model.walks_null_elements && shm->array_msg_overrun_deaths >= 4) {
+        // this execution has already recorded (4 times) that such an input kills the process inside deserialize(); a fifth
+        // child would only cost time. Not counted as an evaluated input.
+        bump(CT_repeat_of_recorded_crash_not_executed);
+        for (auto p : fragmem) free(p);
+        shm->cur_hash = 0;
+        return;
+    }
     RecAlloc ra{&ext};
     auto iov = new_receiving_iov(&ra);
     for (auto& f : ext.frags) iov->push_back((void*)f.p, f.n);
     crumb("deserialize");
-    crumb_kind(body_short ? "body-overrun" : model.fail ? std::string(kind_name[model.fail_kind]) + "-overrun" : std::string("wellformed:") + tname);
+    crumb_kind(body_short ? "body-overrun" : model.walks_null_elements ? "array<message>-overrun" : model.fail ? std::string(kind_name[model.fail_kind]) + "-overrun" : std::string("wellformed:") + tname);
     void* res = T.deser(iov);
     vh::event();
     const std::string pfx = rt ? "roundtrip" : "hostile";
@@ -1328,6 +1366,11 @@ int main(int argc, char** argv) {
         if (WIFEXITED(status) && WEXITSTATUS(status) == 12) vh::machinery_failure("child reported a machinery failure: " + slurp(errfile, 2000));
         // ---- the child died while working on input `dying`
         g_nc[CT_child_deaths]->add();
+        if (g_nc[CT_child_deaths]->get() > 60) {
+            // something kills the process on a large share of the inputs: the violations are recorded, more children add nothing
+            vh::config("stopped_early", "more than 60 children died; remaining inputs not run");
+            end = next;
+        }
         if (dying_hash) vh::note_input(dying_hash, dying_nt);
         else vh::st().inputs.fetch_add(1);
         std::string batch_err = slurp(errfile, 200000);
@@ -1347,7 +1390,9 @@ int main(int argc, char** argv) {
             g_nc[CT_flagged_oob_confirmed_by_sanitizer]->add();
             continue;
         }
+        if (stage == "deserialize" && kind == "array<message>-overrun") shm->array_msg_overrun_deaths++;
         std::string key = mode + "/death:" + stage + ":" + kind + (mode == "hostile" ? ":" + edit : "");
+        if (getenv("C12_DEBUG")) fprintf(stderr, "[h_ser] death at input %" PRIu64 ": %s (%s)\n", dying, key.c_str(), describe_status(status).c_str());
         if (g_seen_death_keys.count(key)) { g_nc[CT_known_crash_repeats]->add(); continue; }
         g_seen_death_keys.insert(key);
         // one symbolised report per (mode, stage, kind); the other edit classes of the same failure quote it
